@@ -288,7 +288,135 @@ def pdom_height(ctx, prog):
     ctx.floor(R, n, 6)
 
 
-for _f, _id in ((guard_bypass, "C02.GUARD-bypass"), (wmc_link, "C02.WMC-link"), (pdom_height, "C02.PDOM-height")):
+def ensure_raise(ctx, prog):
+    R = "C02.PDOM-raise"
+    ctx.rule(R, "ensure_height_requirement raises the parent to child.height + 1 on EVERY violated edge "
+                "(child.height >= parent.height), whether or not the parent is already queued for adjustment")
+    F = ctx.need_fn(R, q.AHH + "ensure_height_requirement")
+    if F is None:
+        return
+    du = DefUse(F)
+    c = F.cfg()
+    sets = q.calls_in(F, "AdjustHeightsHeap::set_height")
+    adds = q.calls_in(F, "AdjustHeightsHeap::add_unless_mem")
+    sw = None
+    for b in F.blocks:
+        t = b["term"]
+        if t["k"] == "switch":
+            e = expr(F, t["on"], du)
+            if e[0] == "bin" and e[1] == "Ge" and mentions(e[2], lambda x: x[0] == "call" and x[1].endswith("::height") and
+                                                           mentions(x, lambda y: y == ("arg", 4))) and \
+                    mentions(e[3], lambda x: x[0] == "call" and x[1].endswith("::height") and mentions(x, lambda y: y == ("arg", 5))):
+                sw = b["id"]
+    ctx.site(R, F, "violation test bb%s; set_height %s; add_unless_mem %s" % (sw, [t.bb for t in sets], [t.bb for t in adds]))
+    if sw is None or not sets or not adds:
+        ctx.fail(R, "shape", "ensure_height_requirement: expected `child.height() >= parent.height()` guarding "
+                 "add_unless_mem and set_height", fn=F, kind="anchor")
+        return
+    true_t = [x for x in c.succ[sw] if 0 not in c.edge_values(sw, x)]
+    for name, sites in (("set_height", sets), ("add_unless_mem", adds)):
+        p = c.path(true_t, c.exits, avoid={t.bb for t in sites})
+        if p is not None:
+            ctx.fail(R, "raise:" + name, "on a violated edge a path skips %s: a parent that is already queued is not raised "
+                     "above a second, taller child, ends up at the same height as a child and is recomputed before it "
+                     "(glitch)" % name, fn=F, path=q.fmt_path(F, [sw] + p))
+        else:
+            ctx.ok(R, "raise:" + name)
+    e = expr(F, sets[0].args[2], du)
+    good = e[0] == "bin" and e[1] == "Add" and e[3] == ("const", 1) and mentions(
+        e[2], lambda x: x[0] == "call" and x[1].endswith("::height") and mentions(x, lambda y: y == ("arg", 4)))
+    tgt = expr(F, sets[0].args[1], du)
+    if good and tgt == ("arg", 5):
+        ctx.ok(R, "raise:value")
+    else:
+        ctx.fail(R, "raise:value", "set_height(%s, %s): expected (parent, child.height() + 1)" % (show(tgt), show(e)), fn=F)
+    # the queue entry is made before the height changes (pre-adjusted height is the bucket)
+    if c.dominates(adds[0].bb, sets[0].bb):
+        ctx.ok(R, "raise:order")
+    else:
+        ctx.fail(R, "raise:order", "the parent's height is changed before it is queued with its old height", fn=F)
+
+
+SPEC_CAN_RECOMPUTE = {
+    # kind -> (operator, left operand, right operand) of can_recompute_now, from the upstream algorithm
+    "BindLhsChange": ("Gt", "height(arg2)", "height(arg1.created_in)"),
+    "Map": ("Gt", "height(arg2)", "height(arg1.created_in)"),
+    "MapRef": ("Gt", "height(arg2)", "height(arg1.created_in)"),
+    "MapWithOld": ("Gt", "height(arg2)", "height(arg1.created_in)"),
+    "BindMain": ("Gt", "height(arg2)", "height(kind(arg1).0.lhs_change)"),
+    "ArrayFold": "false", "Map2": "false", "Map3": "false", "Map4": "false", "Map5": "false", "Map6": "false",
+    "Expert": "false", "Constant": "panic", "Var": "panic",
+}
+
+
+def dtab_can_recompute(ctx, prog, R="C02.DTAB-can-recompute"):
+    ctx.rule(R, "per parent kind, can_recompute_now is the specified strict comparison: child.height > scope height "
+                "(single-child kinds), child.height > lhs_change.height (BindMain), false for multi-child kinds")
+    F = ctx.need_fn(R, q.NODE_IMPL + "parent_iter_can_recompute_now")
+    if F is None:
+        return
+    du = DefUse(F)
+    c = F.cfg()
+    # the switch on the parent's kind
+    ksw = None
+    for b in F.blocks:
+        t = b["term"]
+        if t["k"] == "switch":
+            e = expr(F, t["on"], du)
+            if e[0] == "discr" and e[1][0] == "field" and e[1][1][0] == "call" and e[1][1][1].endswith("Node::kind"):
+                ksw = b["id"]
+                break
+    locs = F.local_named("can_recompute_now")
+    if ksw is None or len(locs) != 1:
+        ctx.fail(R, "shape", "cannot find the kind switch / the can_recompute_now variable", fn=F, kind="anchor")
+        return
+    flag = locs[0]
+    got = {}
+    t = F.blocks[ksw]["term"]
+    dom = __import__("rules.dtab", fromlist=["x"]).enum_domain(prog, "incremental::kind::Kind")
+    listed = {v for v, _ in t["targets"]}
+    for val, name in dom.items():
+        tgt = dict((v, b) for v, b in t["targets"]).get(val, t["otherwise"])
+        # walk forward from the arm until the variable is assigned or the arm diverges
+        seen = set()
+        work = [tgt]
+        res = None
+        while work and res is None:
+            bb = work.pop()
+            if bb in seen:
+                continue
+            seen.add(bb)
+            for st in F.block_stmts(bb):
+                if st.dst is not None and st.dst.is_local() and st.dst.local == flag:
+                    rv = st.rv or {}
+                    if "bin" in rv:
+                        res = (rv["bin"][0], show(expr(F, rv["bin"][1], du)), show(expr(F, rv["bin"][2], du)))
+                    elif "use" in rv and q.op_const(rv["use"]) is not None:
+                        res = "true" if q.op_const(rv["use"]).get("int") else "false"
+                    else:
+                        res = ("?", show(expr(F, st.dst, du)), "")
+            if res is None:
+                if not c.succ[bb]:
+                    res = "panic"
+                else:
+                    work.extend(c.succ[bb])
+        got[name] = res
+    for name, want in SPEC_CAN_RECOMPUTE.items():
+        g = got.get(name)
+        ctx.site(R, F, "%s -> %s" % (name, g))
+        if g == want:
+            ctx.ok(R, "kind:" + name)
+        else:
+            ctx.fail(R, "kind:" + name, "can_recompute_now for a %s parent is %s, specified %s: with a non-strict comparison a "
+                     "node created in a bind can be recomputed directly while the bind's change detector (same height as "
+                     "the child) is still pending" % (name, g, want), fn=F)
+    for name in got:
+        if name not in SPEC_CAN_RECOMPUTE:
+            ctx.fail(R, "kind:" + name, "new Kind %s has no direct-recompute rule" % name, fn=F, kind="anchor")
+
+
+for _f, _id in ((guard_bypass, "C02.GUARD-bypass"), (wmc_link, "C02.WMC-link"), (pdom_height, "C02.PDOM-height"),
+                (ensure_raise, "C02.PDOM-raise"), (dtab_can_recompute, "C02.DTAB-can-recompute")):
     _f.rule_id = _id
 
-RULES = [guard_bypass, wmc_link, pdom_height]
+RULES = [guard_bypass, wmc_link, pdom_height, ensure_raise, dtab_can_recompute]
